@@ -6,7 +6,8 @@ import ast
 import glob
 import os
 
-SRC = "/repo/src/vector"
+import os as _os
+SRC = (_os.environ.get("VERIF_REPO") or "/repo") + "/src/vector"
 
 
 def skel(stmts):
